@@ -330,8 +330,10 @@ impl<L: ChainListener> ChainTracker<L> {
         }
 
         // If we have headers (i.e. not a deep reorg), check the prev header
-        // matches what we were given as an argument and pop it off.  Otherwise,
-        // we assume the prev header is correct and use it.
+        // matches what we were given as an argument.  It is popped off only
+        // after the removal was validated, so that a refused removal leaves
+        // the remembered headers intact.  Otherwise, we assume the prev
+        // header is correct and use it.
         if !self.headers.is_empty() {
             if supplied_prev_headers.0 != self.headers[0].0 {
                 return Err(error_invalid_chain!(
@@ -348,7 +350,6 @@ impl<L: ChainListener> ChainTracker<L> {
                     supplied_prev_headers.0.block_hash().to_string()
                 ));
             }
-            self.headers.pop_front();
         };
 
         let mut prev_headers = supplied_prev_headers;
@@ -380,6 +381,8 @@ impl<L: ChainListener> ChainTracker<L> {
         };
 
         info!("removed block {}: {}", self.height, &self.tip.0.block_hash());
+        // no-op on a deep reorg (no remembered headers)
+        self.headers.pop_front();
         mem::swap(&mut self.tip, &mut prev_headers);
         self.height -= 1;
         Ok(prev_headers.0)
